@@ -27,6 +27,6 @@ func TestSim(t *testing.T) {
 				core.Global.FindName(nil, "Trigger_"+n)
 			}
 		},
-		WarmupRuns: 4,
+		WarmupRuns: 24,
 	})
 }
